@@ -339,6 +339,18 @@ func mergeRoots(
 	mergedRoots := make(map[string][]byte, len(roots))
 	var tree *crdt.Tree
 	created := when
+
+	// Load every listed version first. A commit publishes the new version
+	// before it retires the versions it was built from, so a version and
+	// its own successor can be listed together (for good, if retiring
+	// failed). The successor contains everything its merge sources have;
+	// merging them again could only matter where write times tie, and
+	// there it would bring back what the successor replaced.
+	type listedRoot struct {
+		root  *crdt.Root
+		bytes []byte
+	}
+	listed := make(map[string]listedRoot, len(roots))
 	for _, key := range roots {
 		root, rootBytes, err := loadRootFromAny(ctx, persists, key)
 		if err != nil {
@@ -350,6 +362,20 @@ func mergeRoots(
 			}
 			return nil, nil, 0, fmt.Errorf("load %v: not found", key)
 		}
+		listed[key] = listedRoot{root, rootBytes}
+	}
+	containedIn := map[string]string{}
+	for name, l := range listed {
+		for _, source := range l.root.MergeSources {
+			if _, ok := listed[source]; ok && source != name {
+				containedIn[source] = name
+			}
+		}
+	}
+	// mergeOne merges one listed version into the view; a version that may
+	// be skipped (its objects are gone) is left out of mergedRoots.
+	mergeOne := func(key string) error {
+		root, rootBytes := listed[key].root, listed[key].bytes
 		if root.KVVersion > *maxVersion {
 			*maxVersion = root.KVVersion
 		}
@@ -360,12 +386,12 @@ func mergeRoots(
 				if cfg.LogFunc != nil {
 					cfg.LogFunc(fmt.Sprintf("skipping merge for deleted root or parent in %v: %v", key, err))
 				}
-				continue
+				return nil
 			}
 			if cfg.LogFunc != nil {
 				cfg.LogFunc(fmt.Sprintf("skipping merge for un-crdt.Load()able root %v: %v", key, err))
 			}
-			return nil, nil, 0, err
+			return err
 		}
 		if tree == nil && (!forceRebranch || cfg.BranchFactor == graft.Mast.BranchFactor()) {
 			tree = graft
@@ -373,7 +399,7 @@ func mergeRoots(
 			tree.MergeSources = []string{key}
 		} else {
 			if !forceRebranch && tree.Mast.BranchFactor() != graft.Mast.BranchFactor() {
-				return nil, nil, 0, fmt.Errorf(
+				return fmt.Errorf(
 					"cannot merge roots with varying branch factors, %d and %d, without OpenOptions.ForceRebranch",
 					tree.Mast.BranchFactor(),
 					graft.Mast.BranchFactor())
@@ -381,7 +407,7 @@ func mergeRoots(
 			if tree == nil {
 				tree, err = crdt.Load(ctx, crdtConfig, nil, emptyRoot(when, cfg.BranchFactor, crdtConfig))
 				if err != nil {
-					return nil, nil, 0, fmt.Errorf("new root: %w", err)
+					return fmt.Errorf("new root: %w", err)
 				}
 			}
 
@@ -395,31 +421,65 @@ func mergeRoots(
 			newTree, err := tree.Clone(ctx)
 			if err != nil {
 				if !skippable(err) {
-					return nil, nil, 0, fmt.Errorf("clone for merge of %v: %w", key, err)
+					return fmt.Errorf("clone for merge of %v: %w", key, err)
 				}
 				if cfg.LogFunc != nil {
 					cfg.LogFunc(fmt.Sprintf("skipping merge un-cloneable tree %v: %v", key, err))
 				}
-				continue
+				return nil
 			}
 			err = newTree.Merge(ctx, graft)
 			if _, ok := err.(crdt.MergeError); ok {
-				return nil, nil, 0, err
+				return err
 			}
 			if err != nil {
 				if !skippable(err) {
-					return nil, nil, 0, fmt.Errorf("merge %v: %w", key, err)
+					return fmt.Errorf("merge %v: %w", key, err)
 				}
 				if cfg.LogFunc != nil {
 					cfg.LogFunc(fmt.Sprintf("skipping merge un-cloneable tree %v: %v", key, err))
 				}
-				continue
+				return nil
 			}
 			tree = newTree
 		}
 		mergedRoots[key] = rootBytes
 		if root.Created != nil && root.Created.After(created) {
 			created = *root.Created
+		}
+		return nil
+	}
+	var contained []string
+	for _, key := range roots {
+		if _, ok := listed[key]; !ok {
+			continue
+		}
+		if _, ok := containedIn[key]; ok {
+			contained = append(contained, key)
+			continue
+		}
+		if err := mergeOne(key); err != nil {
+			return nil, nil, 0, err
+		}
+	}
+	// A version whose successor was merged is part of this view already
+	// (and is retired by the next commit); if the successor had to be
+	// skipped, the version is merged itself.
+	for _, key := range contained {
+		successor := containedIn[key]
+		for {
+			next, ok := containedIn[successor]
+			if !ok {
+				break
+			}
+			successor = next
+		}
+		if _, ok := mergedRoots[successor]; ok {
+			mergedRoots[key] = listed[key].bytes
+			continue
+		}
+		if err := mergeOne(key); err != nil {
+			return nil, nil, 0, err
 		}
 	}
 
